@@ -215,8 +215,10 @@ def _roundtrip(tier, seed):
                     w2 = wntr.network.from_dict(copy.deepcopy(d0), append=wntr.network.WaterNetworkModel())
                 d1 = wntr.network.to_dict(w2)
             except Exception as e:
-                if name == "feature:timed_leaks":
-                    known.append("a model with a timed leak (add_leak with start_time / end_time) cannot be re-created from its dictionary: the leak_status controls target nodes and from_dict raises %s [%s, %s]" % (type(e).__name__, name, mode))
+                from pyvc.runner import known_bounded
+                kf = known_bounded("C13", "C13.round_trip[%s]" % name)      # listed in known_findings.json (never written at run time)
+                if kf is not None:
+                    known.append("%s [%s, %s: %s]" % (kf["what_fails"][:160], name, mode, type(e).__name__))
                 else:
                     failures.append(dict(model=name, mode=mode, raised=repr(e)[:200]))
                 continue
